@@ -10,7 +10,8 @@ ID = 'C04'
 LEVEL = 'fault_enumeration'
 RULE = ('case = (stream bytes incl. sentinel tail, Content-Length below/equal/above the bytes available, buffer = '
         'max_memfile_size, read-fragmentation pattern = caps for successive read() calls, entry point '
-        '_body_read | Request.body through WSGI read twice). Hypothesis-generated plus exhaustive enumeration of all '
+        '_body_read | Request.body through WSGI read twice, content type none / octet-stream / JSON / urlencoded / multipart with a well-formed body whose closing delimiter '
+        'is followed by an epilogue, max_body_size unset or >= Content-Length incl. equal). Hypothesis-generated plus exhaustive enumeration of all '
         'compositions (cap sequences) of every body length <= 9 for buffers 1..11. Oracle: body == first '
         'min(CL, available) stream bytes; no read(n) asks for more than CL minus bytes already delivered; no '
         'read(-1). Non-trivial = at least one short read happened, or CL != available, or the body spilled to a '
@@ -19,8 +20,18 @@ ASSUMPTIONS = ['a WSGI server stream may return fewer bytes than requested and r
                'Content-Length is a non-negative decimal integer (the server validated it)']
 
 
+MP_BODY = (b'--bnd\r\nContent-Disposition: form-data; name="a"\r\n\r\nvalue one\r\n--bnd\r\nContent-Disposition: form-data; name="f"; filename="x.bin"\r\n'
+           b'Content-Type: application/octet-stream\r\n\r\nfile \r\n--bn content\r\n--bnd--')
+CTYPES = [None, None, 'application/octet-stream', 'multipart/form-data; boundary=bnd', 'multipart/form-data; boundary=bnd', 'application/json', 'application/x-www-form-urlencoded',
+          'multipart/mixed; boundary=bnd', 'text/plain']
+
+
 def _strategy():
-    def build(data, clmode, delta, buf, pattern, via, anycl):
+    def build(data, clmode, delta, buf, pattern, via, anycl, ctype, mp, epi, maxb):
+        if mp and ctype and ctype.startswith('multipart/'):
+            data = MP_BODY + epi + data[:delta % 7]          # a well-formed multipart body (closing delimiter + epilogue) followed by a few sentinel bytes
+            if clmode == 'eq':
+                clmode = 'mp'
         n = len(data)
         if clmode == 'eq':
             cl = n
@@ -28,9 +39,14 @@ def _strategy():
             cl = max(0, n - delta)
         elif clmode == 'above':
             cl = n + delta
+        elif clmode == 'mp':
+            cl = len(MP_BODY + epi)
         else:
             cl = anycl
-        return {'data': data, 'cl': cl, 'buf': buf, 'pattern': pattern, 'via': via}
+        case = {'data': data, 'cl': cl, 'buf': buf, 'pattern': pattern, 'via': via if ctype is None else 'wsgi', 'ctype': ctype}
+        if maxb is not None:
+            case['max_body'] = cl + maxb         # a configured limit the body does not exceed (equal to it when maxb == 0)
+        return case
     data = st.one_of(st.binary(max_size=40), st.binary(min_size=30, max_size=220))
     return st.builds(
         build, data,
@@ -39,7 +55,9 @@ def _strategy():
         st.one_of(st.just([]), st.lists(st.integers(1, 9), min_size=1, max_size=8),
                   st.lists(st.integers(1, 80), min_size=1, max_size=12)),
         st.sampled_from(['direct', 'direct', 'wsgi']),
-        st.integers(0, 400))
+        st.integers(0, 400),
+        st.sampled_from(CTYPES), st.booleans(), st.sampled_from([b'', b'\r\n', b'\r\nepilogue text', b'\r\n\r\nmore']),
+        st.sampled_from([None, None, None, 0, 0, 1, 1000]))
 
 
 def _read_direct(case, stream):
@@ -54,7 +72,10 @@ def _read_direct(case, stream):
 
 def _read_wsgi(case, stream):
     import ombott
-    app = ombott.Ombott({'max_memfile_size': case['buf']})
+    cfg = {'max_memfile_size': case['buf']}
+    if case.get('max_body') is not None:
+        cfg['max_body_size'] = case['max_body']
+    app = ombott.Ombott(cfg)
     seen = {}
 
     @app.route('/b', method='POST')
@@ -66,7 +87,7 @@ def _read_wsgi(case, stream):
         seen['spilled'] = type(rq.body).__name__ != 'BytesIO'
         return b1
 
-    env = make_environ('POST', '/b', stream=stream, content_length=case['cl'])
+    env = make_environ('POST', '/b', stream=stream, content_length=case['cl'], headers=({'Content-Type': case['ctype']} if case.get('ctype') else None))
     r = call_app(app, env)
     if r.escaped is not None:
         raise CheckFailure(f'exception escaped: {fmt_exc(r.escaped)}')
@@ -113,6 +134,14 @@ def check_case(ctx, case):
         ctx.count('cl_below')
     elif cl > len(data):
         ctx.count('cl_above_early_eof')
+    if case.get('ctype'):
+        ctx.count('with_content_type')
+        if case['ctype'].startswith('multipart/') and data.startswith(MP_BODY):
+            ctx.count('wellformed_multipart_body')
+    if case.get('max_body') is not None:
+        ctx.count('max_body_size_configured')
+        if case['max_body'] == cl:
+            ctx.count('content_length_equals_max_body_size')
     if short or spilled or cl != len(data):
         ctx.nontrivial(case, sample=case)
 
